@@ -67,6 +67,7 @@ class DatasetHistories(Suite):
 
         def name(ni):
             return DID if N[ni] is None else N[ni]
+        deferred = None
         for i, op in enumerate(case["history"]):
             k = op[0]
             if k == "add":
@@ -102,15 +103,17 @@ class DatasetHistories(Suite):
                 ds.graph(name(op[1]))
                 known.add(name(op[1]))
             m = self.observe(ds, model, known, case["default_union"], f"after step {i} {op}")
-            if m:
+            if m and not m.startswith("quads-restricted"):
                 return m
-        return None
+            deferred = deferred or m
+        return deferred
 
     def observe(self, ds, model, known, du, where):
         from rdflib import Graph, URIRef
         from rdflib.graph import DATASET_DEFAULT_GRAPH_ID as DID
         T, N = vocab()
         names = [DID if n is None else n for n in N]
+        restricted = None
         exp_quads = {t + (n,) for n, ts in model.items() for t in ts}
         got = list(ds.quads())
         gq = {(s, p, o, DID if c is None else c) for s, p, o, c in got}
@@ -142,6 +145,11 @@ class DatasetHistories(Suite):
                     if set(view.triples(pat)) != e2:
                         return (f"view-pattern: {where}: Graph(store,{n}).triples({pat}) = "
                                 f"{sorted(map(str, view.triples(pat)))} expected {sorted(map(str, e2))}")
+                    if not (du and n == DID) and ((tuple(pat) + (n,)) in ds) != bool(e2):
+                        return (f"quad-membership-wildcard: {where}: ({pat}, {n}) in dataset is {(tuple(pat) + (n,)) in ds}, "
+                                f"the graph holds {len(e2)} matching triples")
+            if not (du and n == DID) and (((None, None, None, n) in ds) != bool(exp)):
+                return f"quad-membership-wildcard: {where}: (None, None, None, {n}) in dataset is {(None, None, None, n) in ds}, the graph holds {len(exp)} triples"
             if du and n == DID:
                 continue    # with default_union the default graph asked through the dataset is the union
             got_t = set(ds.triples((None, None, None), context=view))
@@ -157,8 +165,10 @@ class DatasetHistories(Suite):
                 if ((t + (view,)) in ds) != (t in exp):
                     return f"quad-membership: {where}: ({t}, <graph object {n}>) in dataset is {(t + (view,)) in ds}, expected {t in exp}"
             rq = {(s, p, o, DID if c is None else c) for s, p, o, c in ds.quads((None, None, None, n))}
-            if rq != {t + (n,) for t in exp}:
-                return f"quads-restricted: {where}: quads((None,None,None,{n})) = {sorted(map(str, rq))} expected only graph {n}"
+            if rq != {t + (n,) for t in exp} and restricted is None:
+                # reported LAST: this clause is an open finding (C02-quads-graph-restriction-leaks) and must not stop
+                # the case before the other observations and the later steps of the history have been compared
+                restricted = f"quads-restricted: {where}: quads((None,None,None,{n})) = {sorted(map(str, rq))} expected only graph {n}"
         union = set().union(*model.values()) if model else set()
         if du:
             if set(ds.triples((None, None, None))) != union:
@@ -168,7 +178,7 @@ class DatasetHistories(Suite):
                 return f"default-graph-read: {where}: triples() without a graph differs from the default graph"
         if len(ds) != len(union):
             return f"len: {where}: len(dataset)={len(ds)} expected {len(union)} (size of the union)"
-        return None
+        return restricted
 
     def classify(self, case, msg):
         return msg.split(":")[0]
